@@ -41,6 +41,11 @@ def configs(tier, seed):
     return cfgs
 
 
+def wiring_flipped(x):
+    from amaranth.lib.wiring import flipped
+    return flipped(x)
+
+
 def build(cfg):
     from amaranth_soc import csr
     from amaranth_soc.csr.wishbone import WishboneCSRBridge
@@ -48,7 +53,8 @@ def build(cfg):
     try:
         bus = csr.Interface(addr_width=cfg["aw"], data_width=cfg["csr_dw"], path=("csr",))
         bus.memory_map = MemoryMap(addr_width=cfg["aw"], data_width=cfg["csr_dw"])
-        br = WishboneCSRBridge(bus, data_width=cfg["wb_dw"])
+        dw_arg = None if (cfg["wb_dw"] == cfg["csr_dw"] and cfg["aw"] % 2 == 0) else cfg["wb_dw"]      # the documented default spelling
+        br = WishboneCSRBridge(wiring_flipped(bus) if cfg["aw"] % 3 == 0 else bus, data_width=dw_arg)
     except (ValueError, TypeError) as e:
         raise Refused(str(e))
     return br, bus
